@@ -90,7 +90,7 @@ func runC05(c *CaseCtx) *CaseResult {
 	}
 	cc.Ops = ops
 	cc.Hist = HistCfg{DescendPct: 10, PopOnChild: true, InvalidPct: 2}
-	cc.Mon = MonCfg{TreeEvery: 1, DeepEvery: 151, RefEvery: 61, ReachEvery: 50, ColdAtCommit: true}
+	cc.Mon = MonCfg{TreeEvery: 1, DeepEvery: 151, RefEvery: 61, ReachEvery: 50, ColdAtCommit: true, DirtyEvery: 6}
 	cc.CommitEvery = 300
 	// set-heavy churn: growth and shrink of elements in place (overflow / underflow after update)
 	cc.Phases = scalePhases(ops,
@@ -220,7 +220,7 @@ func runC09(c *CaseCtx) *CaseResult {
 	}
 	cc.Ops = ops
 	cc.Hist = HistCfg{DescendPct: 40, PopOnChild: true, InvalidPct: 3}
-	cc.Mon = MonCfg{TreeEvery: 1, ReachEvery: 1, DeepEvery: 0, RefEvery: 0, ColdAtCommit: true, HealthAtCommit: true}
+	cc.Mon = MonCfg{TreeEvery: 1, ReachEvery: 1, DeepEvery: 0, RefEvery: 0, ColdAtCommit: true, HealthAtCommit: true, DirtyEvery: 5}
 	cc.CommitEvery = 60
 	if kind == "map" {
 		cc.Dig = &DigProfile{Alpha: [4]uint64{uint64(3 + r.Intn(20)), uint64(1 + r.Intn(3)), 2, 0}, Salt: uint64(r.Int63())}
@@ -292,7 +292,7 @@ func runC03(c *CaseCtx) *CaseResult {
 	}
 	cc.Ops = ops
 	cc.Hist = HistCfg{DescendPct: 35, PopOnChild: true, InvalidPct: 3}
-	cc.Mon = MonCfg{TreeEvery: 7, DeepEvery: 0, ColdAtCommit: true, ReachEvery: 0}
+	cc.Mon = MonCfg{TreeEvery: 7, DeepEvery: 0, ColdAtCommit: true, ReachEvery: 0, DirtyEvery: 1}
 	cc.CommitEvery = []int{1, 2, 5, 17, 60, 100000}[c.Case/2%6]
 	cc.Relaxed = c.Case%3 == 2
 	cc.Workers = []int{1, 3, 16}[c.Case%3]
@@ -435,7 +435,7 @@ func runC10(c *CaseCtx) *CaseResult {
 		cc.Dig = &DigProfile{Alpha: [4]uint64{uint64(3 + r.Intn(8)), 2, 2, 0}, Salt: uint64(r.Int63())}
 		cc.Prof.KeySpace = 60
 	}
-	cc.Mon = MonCfg{TreeEvery: 1, DeepEvery: 23, RefEvery: 37, ReachEvery: 11, ColdAtCommit: true}
+	cc.Mon = MonCfg{TreeEvery: 1, DeepEvery: 23, RefEvery: 37, ReachEvery: 11, ColdAtCommit: true, DirtyEvery: 5}
 	cc.CommitEvery = []int{5, 20, 60}[c.Case%3]
 	cc.Phases = scalePhases(ops,
 		[]Phase{PhaseGrow, PhaseChurn, {Name: "childpop", Insert: 25, Set: 20, Remove: 25, Read: 15, Meta: 8, Pop: 7}, PhaseShrink, PhaseGrow, PhaseChurn},
@@ -469,7 +469,7 @@ func runC11(c *CaseCtx) *CaseResult {
 	}
 	cc.Ops = ops
 	cc.Hist = HistCfg{DescendPct: 45, PopOnChild: true, InvalidPct: 1}
-	cc.Mon = MonCfg{TreeEvery: 1, DeepEvery: 19, RefEvery: 41, ReachEvery: 7, SizeEvery: 3, ColdAtCommit: true}
+	cc.Mon = MonCfg{TreeEvery: 1, DeepEvery: 19, RefEvery: 41, ReachEvery: 7, SizeEvery: 3, ColdAtCommit: true, DirtyEvery: 4}
 	cc.CommitEvery = []int{9, 30}[c.Case%2]
 	cc.Phases = scalePhases(ops, []Phase{PhaseGrow, PhaseChurn, PhaseChurn, PhaseShrink, PhaseChurn}, []int{25, 25, 20, 10, 20})
 	play := newDetachedPlay(6, 35, 100)
@@ -537,7 +537,12 @@ func staleHandleAfterReattach(w *World, root *Node) error {
 			}
 		}
 		w.logOp("re-attach %s to a new parent through a second handle, then mutate through the stale handle", d)
-		_ = stale() // the result for the detached container / its new parent is unspecified (two handles)
+		// the outcome for the detached container / its new parent is unspecified (two handles): errors and even panics
+		// there are not judged
+		func() {
+			defer func() { _ = recover() }()
+			_ = stale()
+		}()
 		w.stats.Extra["stale-mutations-after-reattach-by-second-handle"]++
 	}
 	// the former parent must be exactly what the model says
@@ -562,8 +567,15 @@ func staleHandleAfterReattach(w *World, root *Node) error {
 			}
 		}
 	}
-	if err := w.Commit(false, 2); err != nil {
-		// committing the (possibly inconsistent) new parents may fail; that is not the former parent's problem
+	committed := false
+	func() {
+		// committing the (possibly inconsistent) new parents may fail or panic; that is not the former parent's problem
+		defer func() { _ = recover() }()
+		w.led.inCommit = true
+		committed = w.ps.FastCommit(2) == nil
+	}()
+	w.led.inCommit = false
+	if !committed {
 		return nil
 	}
 	return w.CheckCold(w.led.Snapshot(), []*Node{root}, []atree.SlabID{rootID(root)}, []*Node{root}, false)
